@@ -110,3 +110,25 @@ Print Assumptions C06_cost_saving_subadditive_when_split_holds.
 Print Assumptions C06_l2_cost_saving_subadditive.
 Print Assumptions C06_gaussian_cost_saving_subadditive_above_floor.
 Print Assumptions C06_gaussian_split_can_fail_at_the_floor.
+
+(* floating-point statements: Flocq rounding model and the primitive-float program of the CUSUM score *)
+From Flocq Require Import Core Relative.
+From SK Require Import Check.FloatKernelCheck Check.FloatKernelCheck2 Proofs.FloatError Proofs.FloatRefine Proofs.FloatKernels2.
+Open Scope R_scope.
+(** ---- added: statements re-derived from the lemma files by tools/append_props.py ---- *)
+Theorem C06_float_cusum_error : forall (l : list R) (s k e : nat), (s < k)%nat -> (k < e)%nat -> INR e * u53 <= 1 / 100 -> Rabs (cusum_float53 l s k e - cusum_score_R (prefix l) s k e) <= (204 / 100 * INR e + 6) * u53 * (cusum_bw s k e * sumR (map Rabs (firstn e l)) + cusum_aw s k e * sumR (map Rabs (firstn e l))).
+Proof. exact @cusum_float53_error. Qed.
+
+Theorem C06_primitive_float_cusum_program_refines_rounding_model : forall (l : list PrimFloat.float) (s k e : nat), cusum_trace_ok l s k e = true -> FR (cusum_F l s k e) = cusum_float53 (map FR l) s k e.
+Proof. exact @cusum_F_refines. Qed.
+
+Theorem C06_primitive_float_cusum_within_bound_of_real_score : forall (l : list PrimFloat.float) (s k e : nat), cusum_trace_ok l s k e = true -> INR e * u53 <= 1 / 100 -> Rabs (FR (cusum_F l s k e) - cusum_score_R (prefix (map FR l)) s k e) <= (204 / 100 * INR e + 6) * u53 * (cusum_bw s k e * sumR (map Rabs (firstn e (map FR l))) + cusum_aw s k e * sumR (map Rabs (firstn e (map FR l)))).
+Proof. exact @cusum_F_vs_score_R. Qed.
+
+Theorem C06_primitive_float_sqrt_is_binary64_rounding : forall x : PrimFloat.float, FR (PrimFloat.sqrt x) = rnd_binary64 (sqrt (FR x)).
+Proof. exact @FR_sqrt. Qed.
+
+Print Assumptions C06_float_cusum_error.
+Print Assumptions C06_primitive_float_cusum_program_refines_rounding_model.
+Print Assumptions C06_primitive_float_cusum_within_bound_of_real_score.
+Print Assumptions C06_primitive_float_sqrt_is_binary64_rounding.
